@@ -164,6 +164,36 @@ def run_verus_unit(u, scratch, tier, extra_flags=()):
                 return run_verus_unit(u, scratch, tier, extra_flags)
             finally:
                 vx.CLOSURE_FALLBACK[0] = True
+        # item isolation: when every type error lies inside the text of extracted functions / blocks, those items are
+        # outside the verifier's reach on this tree; the unit is rebuilt with them as contract-only stubs so that the
+        # OTHER items are still decided (a violation found there stands; the isolated items' obligations are undecided)
+        if not vx.FORCE_STUB:
+            iso = set(); mappable = bool(errors)
+            for e_ in errors:
+                sp_ = [x for x in e_.get("spans", []) if x.get("is_primary")] or e_.get("spans", [])
+                fnq_ = None
+                for x in sp_:
+                    for (a_, b_, f_, _p, _s) in built.fn_ranges:
+                        if a_ <= x["line_start"] <= b_:
+                            fnq_ = f_
+                    if fnq_:
+                        break
+                if fnq_ is None:
+                    mappable = False; break
+                iso.add(fnq_)
+            if mappable and iso:
+                vx.FORCE_STUB |= iso
+                try:
+                    r2 = run_verus_unit(u, scratch, tier, extra_flags)
+                finally:
+                    vx.FORCE_STUB.clear()
+                if not r2.get("infra"):
+                    r2["isolated"] = sorted(iso)
+                    r2["isolated_items"] = [dict(fn=f_, props=list(_p or u["props"])) for (a_, b_, f_, _p, _s) in built.fn_ranges if f_ in iso]
+                    r2["soft_infra"] = (f"unit {u['name']}: {', '.join(sorted(iso))} outside the verifier's reach on this tree "
+                                        f"(unsupported construct / type error: {msg[:400]}); verified without "
+                                        f"{'its body' if len(iso) == 1 else 'their bodies'}, the obligations of the rest of the unit are decided")
+                    return r2
         res["infra"] = f"verus could not process unit {u['name']} (unsupported construct / type error): {msg}"
         res["diagnostics"] = [e.get("rendered", e["message"]) for e in errors][:20]
         return res
@@ -473,7 +503,7 @@ def explained_by_lost_hint(f, r):
     global _HINT_DEPS
     lost = []
     for rep in r.get("report", []):
-        if not isinstance(rep, dict) or rep.get("item") != f.get("fn"):
+        if not isinstance(rep, dict) or rep.get("item") not in (f.get("fn"), "proof hints"):
             continue
         for w in rep.get("rewrites", []):
             # not a lost proof: a `replace` whose text is absent; a `local` alias whose binder changed shape (the hints were
@@ -507,6 +537,11 @@ def explained_by_lost_hint(f, r):
 def finish(prop, args, seed, t0, results):
     known = [k for k in load_known() if k["prop"] == prop]
     infra = [r["infra"] for r in results if r.get("infra")]
+    # items that were isolated (contract-only) because their body is outside reach on this tree: undecided unless a
+    # violation is found elsewhere — but only for a property the isolated item serves
+    for r in results:
+        if r.get("soft_infra") and any(prop in (it.get("props") or []) for it in r.get("isolated_items", [{"props": [prop]}])):
+            infra.append(r["soft_infra"])
     obligations = []
     failures = []
     for r in results:
